@@ -94,6 +94,26 @@ CHECKS = {
             "Trusted: z3; models of ET.tostring(method=html), BytesIO, utf-8 codec, the C TreeBuilder state machine (each validated per path "
             "against the real implementation); composition argument of DESIGN section 3 C01.",
             "DESIGN.md section 3 C01", ""),
+    "C02": (True,
+            "A symbolic tree (skeletons <= 3/4 nodes, symbolic 1-2 character tags so that name clashes are decided by the solver, symbolic data "
+            "over the printable alphabet) is rendered by an independent renderer under symbolic choices (end tag of each data element present or "
+            "not, CDATA or not, white space of symbolic length and content between tokens) and fed to the real TreeBuilder.feed/_feedmatch/"
+            "_start/_groomstring through the symbolic regex engine executing the real tokenizer pattern; the result must be exactly the source tree.",
+            "Trusted: z3; regex engine model; C-faithful TreeBuilder model (validated per path against the real C implementation); harness/render.py.",
+            "DESIGN.md section 3 C02", ""),
+    "C08": (True,
+            "(a) token sequences of <= 5/6 tokens whose kinds and tag identities are symbolic: whenever the reference stack discipline rejects "
+            "the sequence the real parser (feed + close) must fail; properly nested sequences must be accepted. (b) every rendering of every small "
+            "tree cut at a symbolic index before its last '>' must fail.",
+            "Trusted: z3; regex engine and TreeBuilder models (validated per path); the reference predicate in harness/c08.py.",
+            "DESIGN.md section 3 C08", ""),
+    "C05": (True,
+            "v1: header with symbolic VERSION digits / tokens / UIDs, separator kind A after each field and kind B at a symbolic position, "
+            "optional blank after a symbolic colon, leading blank lines, six header/body gaps, body '<'+symbolic characters+'>' over everything "
+            "encodable in the declared charset (incl. CR/LF, cp1252-only characters, multi-byte UTF-8); v2: quote style and line breaks of each "
+            "declaration. The real parse_header runs over BytesIO/codec models; returned fields and text must equal what was assembled.",
+            "Trusted: z3; models of BytesIO, ascii/latin_1/cp1252/utf_8 codecs (cp1252 table read from the real codec), regex (validated per path).",
+            "DESIGN.md section 3 C05", ""),
 }
 
 NOT_YET = {
